@@ -21,8 +21,9 @@ ITEMS[3] = ITEMS[2]
 
 def ns(l1: int, i1: int, l2: int, i2: int, nb: int, fs: int) -> bool:
     """
-    pre: 0 <= l1 < 3 and 0 <= l2 < 3 and 0 <= i1 < 5 and 0 <= i2 < 5 and 0 <= nb <= 2 and fs >= 1
-    pre: (l1 != l2 or nb < 2) and nb == P["nb"] and (P["nb"] == 2 or (l2 == 0 and i2 == 0)) and (P["nb"] >= 1 or (l1 == 0 and i1 == 0))
+    pre: 0 <= l1 < 3 and 0 <= l2 < 3 and 0 <= i1 < 5 and 0 <= i2 < 5 and 0 <= nb <= 3 and fs >= 1
+    pre: (l1 != l2 or nb < 2) and nb == P["nb"] and (P["nb"] >= 2 or (l2 == 0 and i2 == 0)) and (P["nb"] >= 1 or (l1 == 0 and i1 == 0))
+    pre: P["nb"] < 3 or (l1 == 1 and l2 == 2)
     pre: P.get("fix1") is None or (l1 == P["fix1"][0] and i1 == P["fix1"][1])
     pre: P.get("fixl") is None or l1 == P["fixl"]
     post: _
@@ -30,7 +31,10 @@ def ns(l1: int, i1: int, l2: int, i2: int, nb: int, fs: int) -> bool:
     integ, phys = P["integ"], P["phys"]
     try:
         binds = [(alpha.pick(l1, LABELS), alpha.pick(i1, NSIRIS)), (alpha.pick(l2, LABELS), alpha.pick(i2, NSIRIS))]
-        binds = binds[:alpha.pick(nb, [0, 1, 2])]
+        nbv = alpha.pick(nb, [0, 1, 2, 3])
+        binds = binds[:min(nbv, 2)]
+        if nbv == 3:
+            binds.append(("", binds[0][1]))   # a third label bound to the FIRST namespace again (its parts are already in the tables)
         items = ITEMS[phys]
         want = [norm_item(i) for i in items]
         res = {}
@@ -68,11 +72,55 @@ def ns(l1: int, i1: int, l2: int, i2: int, nb: int, fs: int) -> bool:
             with notrace():
                 back = reserialize(integ, phys, data)
             ok = ok and [i for i in back if i[0] == "NS"] == exp
+        # isolation between sinks: a default-constructed sink nobody bound anything on carries no declarations
+        if integ == "generic" and binds:
+            with notrace():
+                opts2 = pj.make_options(phys, ns=True, names=P["names"], prefixes=P["prefixes"], datatypes=P["datatypes"])
+                from pyjelly.integrations.generic import serialize as gs
+                d2 = pj.write_frames(gs.stream_frames(pj.gen_stream(phys, opts2), pj.gen_sink(items)), True)
+                ok = ok and not [i for i in R.decode(bytes(d2))[0] if i[0] == "NS"]
         if P.get("twin"):
             ok = False
     except Exception:  # noqa: BLE001
         ok = False
     return fin(M, ok, l1=l1, i1=i1, l2=l2, i2=i2, nb=nb, fs=fs)
+
+
+def ns_grouped(i1: int, i2: int, same_label: bool) -> bool:
+    """
+    pre: 0 <= i1 < 5 and 0 <= i2 < 5
+    post: _
+    """
+    # two sinks/graphs written through ONE stream (grouped serialisation); the second re-binds a label of the first
+    integ, phys = P["integ"], 1
+    try:
+        a, b = alpha.pick(i1, NSIRIS), alpha.pick(i2, NSIRIS)
+        lab2 = "ex" if same_label else "ey"
+        items = ITEMS[1]
+        opts = pj.make_options(1, logical=3, ns=True, prefixes=4, datatypes=2, generalized=integ == "generic", rdf_star=integ == "generic")
+        if integ == "generic":
+            from pyjelly.integrations.generic import serialize as gs
+            sinks = [pj.gen_sink(items[:1], [("ex", a)]), pj.gen_sink(items[1:], [(lab2, b)])]
+            frames = list(gs.grouped_stream_to_frames((s for s in sinks), opts))
+        else:
+            from pyjelly.integrations.rdflib import serialize as rs
+            with notrace():
+                sinks = [pj.rdf_store(items[:1], [("ex", a)]), pj.rdf_store(items[1:], [(lab2, b)])]
+            frames = list(rs.grouped_stream_to_frames((s for s in sinks), opts))
+        with notrace():
+            dec = R.RefDecoder()
+            per = []
+            for f in frames:
+                before = len(dec.items)
+                dec.frame(f.SerializeToString())
+                per.append(dec.items[before:])
+            carrying = [p for p in per if any(i[0] == "T" for i in p)]
+            ok = len(carrying) == 2 and ("NS", "ex", a) in carrying[0] and ("NS", lab2, b) in carrying[1]
+        if P.get("twin"):
+            ok = False
+    except Exception:  # noqa: BLE001
+        ok = False
+    return fin(M, ok, i1=i1, i2=i2, same_label=same_label)
 
 
 def expected_bindings(integ, binds):
